@@ -37,7 +37,9 @@ def describe(tier):
         "bounds": {"deviations": 2},
         "min_nontrivial": 300,
         "assumptions": [
-            "capture instants are 100000 s + k/8 s so that every resolution and offset denotes exactly the same instants",
+            "capture instants are 100000 s + k/8 s so that every resolution and offset denotes exactly the same instants; a separate "
+            "layer uses nanosecond-precise instants at a present-day epoch over the containers that can carry them (the data "
+            "dimension - which instants - is drawn from VERIF_SEED)",
             "legacy pcap cannot carry if_tsresol/if_tsoffset/extra blocks: those combinations are skipped; legacy variants use -l",
         ],
     }
@@ -90,7 +92,13 @@ def build(pkts, var, pos=None):
         return None
 
 
+NS_CONTAINERS = [{"tsresol": 9}, {"tsresol": 9, "format": "pcapng_be"}, {"tsresol": 9, "tsoffset": 1695718000},
+                 {"tsresol": 9, "tsoffset": -1000}, {"format": "pcap_nano_le"}, {"format": "pcap_nano_be"}]
+
+
 def cases(tier, seed):
+    for part in range(8):
+        yield {"base": "tls12", "d1": "ns", "part": part, "seed": seed, "trials": 12 if tier == "quick" else 60}
     for b in BASES:
         yield {"base": b, "d1": None, "seed": seed}
         for d1 in ALTS:
@@ -98,8 +106,68 @@ def cases(tier, seed):
                 yield {"base": b, "d1": d1, "v1": v1, "seed": seed}
 
 
+def run_ns(case):
+    """instants with nanosecond precision at a present-day epoch: every container that can carry them (pcapng with
+    if_tsresol 9 in both byte orders and with offsets, legacy nanosecond pcap) must give the same export"""
+    seed = case["seed"]
+    pkts, lines = base_capture("mixed", seed)
+    kl = "\n".join(lines) + "\n"
+    rng = scen.rng_for(seed, "c12ns", case["part"])
+    ends = None
+    fails, nontriv = [], []
+    n = 0
+    sample = None
+    for trial in range(case["trials"]):
+        t = Fraction(1695718386)
+        pk = [p.copy() for p in pkts]
+        for p in pk:
+            t += Fraction(rng.randrange(1, 10 ** 9), 10 ** 9)
+            p.ts = t
+        outs = []
+        for var in NS_CONTAINERS:
+            items = cap.to_items(pk)
+            if var.get("format", "").startswith("pcap_"):
+                data, args = pcapio.write_pcap(items, endian="<" if var["format"].endswith("le") else ">", nano=True), ["-l"]
+            else:
+                data = pcapio.write_pcapng(items, endian=">" if var.get("format") == "pcapng_be" else "<", tsresol=9,
+                                           tsoffset=var.get("tsoffset"))
+                args = []
+            res = harness.run_tlexport(data, kl, args, infile="in.pcap" if args else "in.pcapng")
+            n += 1
+            outs.append((var, res))
+        ref = outs[0][1]
+        for var, res in outs:
+            sig = {"base": "mixed", "variant": dict(var, instants="nanosecond precision")}
+            if not res.ok:
+                fails.append({"kind": "run_failed", "sig": sig, "detail": res.status + res.detail[-200:]})
+            elif res.out != ref.out:
+                d = ""
+                try:
+                    a, b_ = pcapio.read_pcapng(ref.out), pcapio.read_pcapng(res.out)
+                    for x, y in zip(a, b_):
+                        if x[0] != y[0]:
+                            d = f"a packet is stamped {float(x[0]):.6f} from pcapng(ns) and {float(y[0]):.6f} from this container"
+                            break
+                except Exception:
+                    pass
+                fails.append({"kind": "export_differs", "sig": sig, "sub": {"trial": trial}, "detail": d})
+            else:
+                nontriv.append(engine.jhash([case["part"], trial, var]))
+                if sample is None:
+                    sample = {"layer": "ns", "containers": NS_CONTAINERS, "first_instant": str(pk[0].ts)}
+    uniq = {}
+    for f in fails:
+        uniq.setdefault(engine.jhash([f["kind"], f["sig"]]), f)
+    r = {"n": n, "fails": list(uniq.values()), "nontrivial": nontriv, "outcomes": []}
+    if sample:
+        r["sample"] = sample
+    return r
+
+
 def run_case(case):
     harness.load()
+    if case.get("d1") == "ns":
+        return run_ns(case)
     b, seed = case["base"], case["seed"]
     pkts, lines = base_capture(b, seed)
     kl = "\n".join(lines) + "\n"
